@@ -100,6 +100,13 @@ func c01Packet(c *fw.Ctx, i int) {
 		c.Fail(c01Sig("build", p, "setextension-refused"), "SetExtension refused a legal element: "+err.Error(), wit())
 		return
 	}
+	if c.R.Chance(1, 4) {
+		// the deprecated exported fields hold whatever an application left in them: they are no part of the packet
+		pk.PayloadOffset = c.R.Pick(-1, 1, 12, 65536, c.R.Intn(4096))
+		var n int
+		fw.Guard(func() { n = pk.MarshalSize() })
+		pk.Raw = c.R.Bytes(c.R.Pick(n, n, n, n+1, 12, c.R.Range(0, 40)))
+	}
 	var wire []byte
 	var size int
 	pv, st := fw.Guard(func() {
